@@ -2,6 +2,7 @@ package taskfile
 
 import (
 	"context"
+	"crypto/tls"
 	"fmt"
 	"net/http"
 	"net/http/httptest"
@@ -229,11 +230,96 @@ func zzRemoteExists(ctx context.Context, u *url.URL) (*url.URL, error) {
 	return u, nil
 }
 
+// (the same, for the form that is handed the client to use)
+//
+//gosmt:stub github.com/go-task/task/v3/taskfile.remoteExists
+func zzRemoteExistsWith(ctx context.Context, u *url.URL, client *http.Client) (*url.URL, error) {
+	zzClients = append(zzClients, client)
+	return zzRemoteExists(ctx, u)
+}
+
 // the transfer itself is not encoded: it fails after the existence check (symbolic run)
 //
 //gosmt:stub (*net/http.Client).Do
 func zzClientDo(c *http.Client, req *http.Request) (*http.Response, error) {
+	zzClients = append(zzClients, c)
 	return nil, fmt.Errorf("zz: transfer not encoded")
+}
+
+// zzClients: the HTTP clients the requests for remote Taskfiles were made with
+var zzClients []*http.Client
+
+// ZZ_C20_RedirectPolicy: plain http is refused without --insecure also when it is where an
+// https address redirects to. The redirects themselves are followed inside net/http, which is
+// not encoded; what go-task decides is the client it makes its requests with: every such
+// client (existence check and download) must carry a redirect policy that refuses a hop to an
+// http:// address unless plain http is allowed, and lets an https hop pass. Natively: a TLS
+// test server redirecting to a plain (or a second TLS) server that has the Taskfile.
+func ZZ_C20_RedirectPolicy() {
+	insecure := zz.Bool("insecure")
+	target := []string{"http", "https"}[zz.Choose("redirect_target_scheme", 2)]
+	if zz.Native() {
+		zzRedirectNative(insecure, target)
+		zz.Reach("end")
+		return
+	}
+	zzServerUp = true
+	zzClients = nil
+	n, err := NewHTTPNode("https://example.com/Taskfile.yml", "", insecure)
+	zz.Assert(err == nil && n != nil, "https-accepted")
+	if err != nil || n == nil {
+		return
+	}
+	_, _ = n.ReadContext(context.Background())
+	zz.Assert(len(zzClients) >= 1, "a-request-is-made")
+	for _, c := range zzClients {
+		var perr error
+		if c != nil && c.CheckRedirect != nil {
+			perr = c.CheckRedirect(&http.Request{URL: &url.URL{Scheme: target, Host: "example.com", Path: "/Taskfile.yml"}}, nil)
+		}
+		zz.Assert((perr != nil) == (target == "http" && !insecure), "redirect-to-plain-http-refused-without-insecure")
+	}
+	if zz.Twin() {
+		zz.Assert(false, "twin")
+	}
+	zz.Reach("end")
+}
+
+func zzRedirectNative(insecure bool, target string) {
+	hits := 0
+	serve := http.HandlerFunc(func(w http.ResponseWriter, r *http.Request) {
+		hits++
+		w.Header().Set("Content-Type", "text/yaml")
+		fmt.Fprint(w, "version: '3'\n")
+	})
+	var final *httptest.Server
+	if target == "http" {
+		final = httptest.NewServer(serve)
+	} else {
+		final = httptest.NewTLSServer(serve)
+	}
+	defer final.Close()
+	front := httptest.NewTLSServer(http.HandlerFunc(func(w http.ResponseWriter, r *http.Request) {
+		http.Redirect(w, r, final.URL+"/Taskfile.yml", http.StatusFound)
+	}))
+	defer front.Close()
+	// the test certificates are trusted for the length of this run
+	tr := http.DefaultTransport.(*http.Transport)
+	old := tr.TLSClientConfig
+	tr.TLSClientConfig = &tls.Config{InsecureSkipVerify: true}
+	defer func() { tr.TLSClientConfig = old }()
+	n, err := NewHTTPNode(front.URL+"/Taskfile.yml", "", insecure)
+	if err != nil || n == nil {
+		zz.Assert(false, "https-accepted")
+		return
+	}
+	b, rerr := n.ReadContext(context.Background())
+	fmt.Printf("ZZ-NOTE redirect to %s, insecure=%v: %d bytes, err=%v, hits on the final server=%d\n", target, insecure, len(b), rerr, hits)
+	if target == "http" && !insecure {
+		zz.Assert(rerr != nil && hits == 0, "redirect-to-plain-http-refused-without-insecure")
+	} else {
+		zz.Assert(rerr == nil && len(b) > 0, "redirect-to-plain-http-refused-without-insecure")
+	}
 }
 
 var zzServerUp bool
